@@ -1,5 +1,6 @@
 import BeffVerif.Driver.Codec
 import BeffVerif.Model.TsCore
+import BeffVerif.Model.Spec
 /-! Driver handler for `(prog <id> <tscore-prog> <files> <values>)` (C01, C08, C15, C04). -/
 namespace BeffVerif.Driver
 open BeffVerif
@@ -58,5 +59,19 @@ def progOp (progS : Sexp) (valsS : List Sexp) : Sexp :=
     | .diags _ => .list [.atom "diags"]
     | .nofuel => .atom "model-nofuel"
   | _, _ => .list [.atom "model-decode-error"]
+
+def specBits (decls : List Decl) (t : Ty) (vals : List JsVal) : String :=
+  String.ofList (vals.map fun v => match Spec.mem decls 200 t v with
+    | some true => '1' | some false => '0' | none => '?')
+
+/-- second channel: the declarative reference ⟦·⟧ᵀˢ on the same values, and the violated hypotheses -/
+def progSpec (progS : Sexp) (valsS : List Sexp) : Sexp :=
+  match decProg progS, valsS.mapM decVal with
+  | some p, some vals =>
+    .list [.list (.atom "spec" :: p.exports.map fun e => .list [.atom e.1, .str (specBits p.decls e.2 vals)]),
+      .list (.atom "hyp-failed" ::
+        ((if Spec.noNumberKey p then [] else [Sexp.atom "NoNumberKey"]) ++
+         (if Spec.intersectionsOfObjects p then [] else [Sexp.atom "IntersectionsOfObjects"])))]
+  | _, _ => .list [.atom "spec-decode-error"]
 
 end BeffVerif.Driver
